@@ -44,4 +44,21 @@ theorem kernelOptimalAt_kabsch (svd : Mat3 α → Mat3 α × Vec3 α × Mat3 α)
     (Proofs.Guards.kabsch_ok_iff svd eps _ _ _).mpr ⟨hg, rfl⟩
   exact ⟨_, hk, Props.C06.rmsd_minimal svd eps _ _ _ hsvd hk⟩
 
+/-- the same for the quaternion kernel, over ℝ, under the contract of `np.linalg.eigh` at the key matrix of the centred
+    sets (`Props.C06.quat_optimal`) -/
+theorem kernelOptimalAt_quaternion (eig : Mat4 ℝ → List (ℝ × Vec4 ℝ)) (eps : ℝ) (heps : 0 ≤ eps)
+    (fit : List (Vec3 ℝ × Vec3 ℝ)) (hfit : fit ≠ [])
+    (heig : Proofs.Guards.EigOK eig (centre (fit.map (·.1))) (centre (fit.map (·.2)))) :
+    KernelOptimalAt (quaternion eig eps) fit := by
+  have hne1 : fit.map (·.1) ≠ [] := by simpa using hfit
+  have hne2 : fit.map (·.2) ≠ [] := by simpa using hfit
+  have hg : guards eps (centre (fit.map (·.1))) (centre (fit.map (·.2))) = .ok () := by
+    rw [Proofs.Guards.guards_ok_iff]
+    refine ⟨by simp [centre], by simpa [centre] using hfit, uncentred_centre eps heps _ hne1, uncentred_centre eps heps _ hne2⟩
+  obtain ⟨lq, hlq, _⟩ := heig
+  have hk : quaternion eig eps (centre (fit.map (·.1))) (centre (fit.map (·.2))) =
+      .ok (Gen.quat_rot lq.2.w lq.2.x lq.2.y lq.2.z) :=
+    (Proofs.Guards.quaternion_ok_iff eig eps _ _ _).mpr ⟨hg, lq, hlq, rfl⟩
+  exact ⟨_, hk, Props.C06.quat_optimal eig eps _ _ _ ⟨lq, hlq, by assumption⟩ hk⟩
+
 end Proofs.Msd
